@@ -61,7 +61,7 @@ def strategy(tier):
 
 
 def budget(tier):
-    return 2500 if tier == "quick" else 150000
+    return 2500 if tier == "quick" else 100000
 
 
 def classify(case):
